@@ -14,6 +14,7 @@ VAR_POOLS = {
     "clash": {"S": "S", "A": "a", "B": "b", "C": "c"},        # same values as the terminals (only used for to_pda)
     "subs_lo": {"S": "S", "A": "S#SUBS#0", "B": "S#SUBS#1", "C": "S#SUBS#2"},   # look like substitute's fresh variables
     "subs_hi": {"S": "S", "A": "S#SUBS#3", "B": "S#SUBS#2", "C": "A#SUBS#1"},
+    "other": {"S": "T", "A": "X", "B": "Y", "C": "Z"},          # shares no name with "upper"
 }
 TERM_POOLS = {
     "ab": {"a": "a", "b": "b", "c": "c"},
